@@ -93,6 +93,20 @@ def _fnorm(h, loose, zero_sign_free):
     return h
 
 
+def valexpr_norm(req, v):
+    """value-typed expression results: floats to 9 digits (literal parsing and libm differ in the last bits)"""
+    if v is None:
+        return v
+    if v.startswith("f:"):
+        return "f:" + _fnorm(v[2:], True, True)
+    if v.startswith("a:"):
+        body = v[2:]
+        return "a:" + ";".join(_fnorm(h, True, True) for h in body.split(";")) if body else "a:"
+    if v.startswith("PANIC"):
+        return "PANIC"
+    return v
+
+
 def val_norm(req, v):
     """canonical form of an encoded Val result for comparison: NaN payload/sign ignored, libm-backed
     operators compared to 9 significant digits, min/max insensitive to the sign of zero"""
@@ -178,11 +192,13 @@ PROPS = {
     ),
     "C10": dict(
         level="proof",
-        modules=["Exmex.Props.C02Deep", "Exmex.Props.C03"],
-        theorems=["Exmex.C02.deep_new_sound", "Exmex.C02.deep_compile_sound", "Exmex.C03.fromDeep_sound"],
-        level_text=("operate_bin / operate_unary are DeepEx::new + compile on the operands re-indexed by name: their value preservation is the kernel-checked "
-                    "deep folding theorem (deep_new_sound, deep_compile_sound) and, for flat expressions, the conversion theorem (fromDeep_sound); the model of the whole "
-                    "calculation API (union of variables, shortcuts of + * / pow, unknown names) is tied to the code by exact symbolic correspondence on histories, "
+        modules=["Exmex.Props.C10", "Exmex.Props.C02Deep", "Exmex.Props.C03"],
+        theorems=["Exmex.C10.resetVars_sound", "Exmex.C10.operateBin_sound", "Exmex.C10.operateUnary_sound", "Exmex.C10.operateBin_unknown",
+                  "Exmex.C02.deep_new_sound", "Exmex.C02.deep_compile_sound", "Exmex.C03.fromDeep_sound"],
+        level_text=("kernel-checked: operate_bin / operate_unary on deep expressions are homomorphisms (operateBin_sound, operateUnary_sound: sorted union of the "
+                    "variables, value = operator applied to the operands' values under every environment; resetVars_sound; unknown names are errors), on top of the deep folding "
+                    "theorems and, for flat expressions, the conversion theorem (fromDeep_sound). Not yet proved: the neutral-element shortcuts of + * / pow and arbitrary "
+                    "histories as one induction; the model of the whole calculation API (union of variables, shortcuts of + * / pow, unknown names) is tied to the code by exact symbolic correspondence on histories, "
                     "and the implementation is judged against an independent f64 reference (operator applied to the operands' values) at random points"),
         rule="pools of 2-5 parsed expressions with overlapping/disjoint variable sets, histories of 1-6 applications through operate_binary/operate_unary, the overloaded + - * / pow and neg (deep form) incl. unknown names; symbolic data type: exact comparison of value/variables/printed text with the Lean model after every step; f64: value at 3 tame points and variable list against the reference; non-trivial = at least 2 steps; distinct by request hash",
         kinds=[dict(kind="hist", quick=8000, thorough=250000, corr=["pool", "steps"], oracle=[], nontrivial=lambda req, A, B: req.split("\t")[5].count("|") >= 1),
@@ -235,8 +251,8 @@ PROPS = {
     ),
     "C19": dict(
         level="translation_validation",
-        modules=["Exmex.Props.C19", "Exmex.Props.Tie"],
-        theorems=["Exmex.C19.float_table_matches_doc", "Exmex.C19.float_table_names_nodup"],
+        modules=["Exmex.Props.C19", "Exmex.Props.Tie", "Exmex.Props.C16Table"],
+        theorems=["Exmex.C19.float_table_matches_doc", "Exmex.C19.float_table_names_nodup", "Exmex.C16.float_runtime_matches_source"],
         level_text=("the operator table of FloatOpsFactory::make() is re-extracted from the source text on every run (name, role, closure body, priority, flag) and proved "
                     "equal to the documented table by the Lean kernel (decide); that a closure which is the primitive call computes the primitive is Rust semantics, cross-checked "
                     "bit for bit at run time for f32 and f64 on an exhaustive special-value catalogue and random values, directly and through parsed expressions"),
@@ -276,12 +292,13 @@ PROPS = {
     ),
     "C16": dict(
         level="proof",
-        modules=["Exmex.Props.C16"],
-        theorems=["Exmex.C16.int_add", "Exmex.C16.int_div", "Exmex.C16.int_rem", "Exmex.C16.promote_left", "Exmex.C16.promote_right",
+        modules=["Exmex.Props.C16", "Exmex.Props.C16Table", "Exmex.Props.C01Parse"],
+        theorems=["Exmex.C16.val_table_matches_doc", "Exmex.C16.val_bin_names", "Exmex.C16.val_un_names", "Exmex.C16.val_flagged", "Exmex.C01.parse_eval_eq_denote", "Exmex.C16.int_add", "Exmex.C16.int_div", "Exmex.C16.int_rem", "Exmex.C16.promote_left", "Exmex.C16.promote_right",
                   "Exmex.C16.eq_int_float", "Exmex.C16.eq_mismatch", "Exmex.C16.ord_mismatch", "Exmex.C16.error_absorbs", "Exmex.C16.unary_error", "Exmex.C16.if_else"],
         rule="every unary operator of ValOpsFactory x every catalogue value and every binary operator x every ordered pair of catalogue values (17 ints incl. MIN/MAX/0/-1, 23 floats incl. NaN/inf/-0.0/subnormal/huge/int-range boundaries, bools, 7 arrays of length 0..5, none, error): 72012 applications, exhaustive; plus random operands; results compared by kind and bit pattern (NaN payload ignored, libm-backed functions to 9 digits); non-trivial = binary application; distinct by request hash",
         kinds=[dict(kind="valopx", quick=72012, thorough=72012, corr=["r"], oracle=[("r", "r")], norm=val_norm, nontrivial=lambda req, A, B: req.split("\t")[1] == "bin"),
-               dict(kind="valop", quick=20000, thorough=1000000, corr=["r"], oracle=[("r", "r")], norm=val_norm, nontrivial=lambda req, A, B: req.split("\t")[1] == "bin")],
+               dict(kind="valop", quick=20000, thorough=1000000, corr=["r"], oracle=[("r", "r")], norm=val_norm, nontrivial=lambda req, A, B: req.split("\t")[1] == "bin"),
+               dict(kind="valexpr", quick=20000, thorough=600000, corr=["p", "vars", "r"], oracle=[("r", "r"), ("p", "p")], norm=valexpr_norm, nontrivial=lambda req, A, B: len(req.split("\t")[1]) >= 16)],
     ),
     "C17": dict(
         level="proof",
@@ -289,7 +306,8 @@ PROPS = {
         theorems=["Exmex.C17.valBin_total", "Exmex.C17.valUn_total", "Exmex.C17.neg_min", "Exmex.C17.abs_min", "Exmex.C17.rem_min_neg_one", "Exmex.C17.to_int_invalid"],
         rule="the C16 catalogue run under catch_unwind: no operator of the value table may panic for any operand (72012 applications exhaustive + random operands); the same values through parse_val literals folded at parse time and through variables; non-trivial = every application; distinct by request hash",
         kinds=[dict(kind="valopx", quick=72012, thorough=72012, corr=["r"], oracle_const=[("r", "(?!PANIC).*")], norm=val_norm, nontrivial=always),
-               dict(kind="valop", quick=20000, thorough=1000000, corr=["r"], oracle_const=[("r", "(?!PANIC).*")], norm=val_norm, nontrivial=always)],
+               dict(kind="valop", quick=20000, thorough=1000000, corr=["r"], oracle_const=[("r", "(?!PANIC).*")], norm=val_norm, nontrivial=always),
+               dict(kind="valexpr", quick=20000, thorough=600000, corr=["p", "r"], oracle_const=[("r", "(?!PANIC).*"), ("p", "(?!PANIC).*")], norm=valexpr_norm, nontrivial=always)],
     ),
     "C07": dict(
         level="proof",
